@@ -118,3 +118,43 @@ Fixpoint tick_seq (ts : list N) (iv : interval) (dr : driver) : list N :=
     | None => tick_seq r iv' dr'
     end
   end.
+
+(* ---- the waker stored with a timer entry ---- *)
+(* TimerSlotEntry.waker, kept as a table  entry id -> task  (newest binding first).
+   Sleep::poll (after fix: commit 5af9a5f): the first poll with deadline > now registers the
+   entry with the waker of the polling task; a later poll of the registered Sleep replaces
+   the stored waker when it would wake another task (update_waker).  [fixed = false] is the
+   code before that commit: the stored waker is never looked at again. *)
+Definition wakers := list (N * nat).
+
+Fixpoint waker_of (tab : wakers) (id : N) : option nat :=
+  match tab with
+  | [] => None
+  | (i, k) :: r => if i =? id then Some k else waker_of r id
+  end.
+
+Definition sleep_poll_waker (fixed : bool) (now : N) (k : nat) (s : sleep) (tab : wakers) : wakers :=
+  if now <? deadline s then
+    match handle s with
+    | None => (sid s, k) :: tab
+    | Some _ => if fixed then (sid s, k) :: tab else tab
+    end
+  else tab.
+
+(* the same, told from the Sleep as it is after the poll and whether it was registered before *)
+Definition note_poll (fixed : bool) (k : nat) (was_registered : bool) (s_after : sleep) (tab : wakers) : wakers :=
+  match handle s_after with
+  | None => tab
+  | Some _ => if was_registered && negb fixed then tab else (sid s_after, k) :: tab
+  end.
+
+(* the Sleep is polled by task k at instant t, for each (t, k) of the list in turn *)
+Fixpoint poll_seq (fixed : bool) (polls : list (N * nat)) (s : sleep) (dr : driver) (tab : wakers)
+  : sleep * driver * wakers :=
+  match polls with
+  | [] => (s, dr, tab)
+  | (t, k) :: r =>
+    let tab' := sleep_poll_waker fixed t k s tab in
+    let '(_, s', dr') := sleep_poll t s dr in
+    poll_seq fixed r s' dr' tab'
+  end.
